@@ -41,6 +41,7 @@ type Edge struct {
 }
 
 type Desc struct {
+	LateFeeders bool `json:"late_feeders,omitempty"` // start the FromStr feeders right before Run / RunTo
 	Name  string   `json:"name"`
 	Max   int      `json:"max"`
 	Nodes []Node   `json:"nodes"`
@@ -271,8 +272,10 @@ func buildAndRun(d Desc) {
 					}
 				}
 			}
-			for port, vals := range n.FromStr {
-				p.InParam(port).FromStr(vals...)
+			if !d.LateFeeders {
+				for port, vals := range n.FromStr {
+					p.InParam(port).FromStr(vals...)
+				}
 			}
 			procs[n.Name] = p
 		case "filesource":
@@ -387,6 +390,16 @@ func buildAndRun(d Desc) {
 		}
 	}
 	fmt.Println("WFRUN-START")
+	if d.LateFeeders {
+		// the FromStr feeders are started last, right before the run: they are finishing while Run / RunTo starts
+		for _, n := range d.Nodes {
+			if p, ok := procs[n.Name].(*sp.Process); ok {
+				for port, vals := range n.FromStr {
+					p.InParam(port).FromStr(vals...)
+				}
+			}
+		}
+	}
 	switch d.RunToKind {
 	case "":
 		wf.Run()
